@@ -1727,6 +1727,7 @@ func (s *Netceptor) handleMessageData(md *MessageData) error {
 			return nil
 		}
 		s.listenerLock.RUnlock()
+		verifhook.Gate("deliver_after_lookup")
 		select {
 		case <-pc.context.Done():
 			close(pc.recvChan)
